@@ -132,6 +132,14 @@ def run(ctx):
     partners = pool[:3]
     sample = valid_ids if not ctx.quick() else [v for i, v in enumerate(sorted(valid_ids)) if i % 2 == ctx.seed % 2]
     pairs += [{"A": a, "B": b} for a in sample for b in partners[:2]] + [{"A": a, "B": b} for b in sample for a in partners[2:3]]
+    # texts whose validity is the implementation's business (a byte order mark, blank / comment-only edges, CR LF, a leading ';'): IF one parses on
+    # its own it must also compose, in front of and behind ordinary programs
+    cands = [("cand|bom", "\ufeffb = 2"), ("cand|bom-only", "\ufeff"), ("cand|bom-mid", "a = 1\ufeff"), ("cand|lead-nl", "\n\nb = 2"), ("cand|trail-nl", "b = 2\n\n"), ("cand|lead-sp", "   b = 2"),
+             ("cand|crlf", "b = 2\r\nc = 3\r\n"), ("cand|cr", "b = 2\rc = 3"), ("cand|lead-semi", "; b = 2"), ("cand|trail-semi", "b = 2;"), ("cand|comment-only", "# only"),
+             ("cand|lead-comment", "# c\nb = 2"), ("cand|trail-comment", "b = 2 # c"), ("cand|block-comment", "/* x */ b = 2 /* y */"), ("cand|tab", "\tb = 2\t"), ("cand|nbsp", "\u00a0b = 2"),
+             ("cand|ff", "\x0cb = 2"), ("cand|zwsp", "\u200bb = 2"), ("cand|shebang", "#!/usr/bin/anko\nb = 2"), ("cand|empty", "")]
+    srcs += [{"id": i, "src": t} for i, t in cands]
+    pairs += [{"A": a, "B": c} for a in partners for c, _ in cands] + [{"A": c, "B": b} for b in partners for c, _ in cands] + [{"A": c, "B": d} for c, _ in cands[:6] for d, _ in cands[:6]]
     # shard over processes
     n = 12
     def shard(k):
